@@ -221,4 +221,25 @@ def scriptCur : Cur Script :=
 
 def scriptMeasure (s : Script) : Nat := s.1.length + (s.2.map (fun o => 1 + (o.getD []).length)).sum
 
+/-! ## the request's `Limit` -/
+
+/-- how a `Query` function treats the request's `Limit` (regenerated from the source per function): `clamps` — the
+countdown variable is cut to `QueryMaxLimit` before the loop; `condUsesClamped` — the value the wait condition compares
+the countdown variable with is a copy taken AFTER that cut (the code's `lim := limit`), not the request's field -/
+structure LimitShape where
+  clamps : Bool
+  condUsesClamped : Bool
+deriving DecidableEq, Repr
+
+/-- a whole `Query` **request** with the `Limit` the client sent: the clamp, then `queryCall`'s logic with the comparison
+value the source uses. (With `⟨true, true⟩` this is `queryCall` over `min reqLimit maxLimit`; with `condUsesClamped = false`
+a request beyond the cap never satisfies `limit == <request limit>` and therefore never waits.) -/
+def queryRequest {σ : Type} (k : LoopShape) (ls : LimitShape) (maxLimit : Nat) (c : Cur σ)
+    (waitTimeout reqLimit fuel : Nat) (s : σ) : QRes :=
+  let limit := if ls.clamps then min reqLimit maxLimit else reqLimit
+  let cmp := if ls.condUsesClamped then limit else reqLimit
+  if k.earlyEmpty && limit == 0 && waitTimeout == 0 then .ok []
+  else if k.waitCond && k.freshTimeout && k.breaksOnTimeout then queryLoop c waitTimeout cmp fuel limit s []
+  else queryLoop c 0 cmp fuel limit s []
+
 end Logrange.WaitLts
